@@ -7,7 +7,7 @@ from . import common
 
 NAME = "U-opt"
 TOOL = "verus"
-PROPS = ["C02", "C18", "C16"]
+PROPS = ["C02", "C18", "C14", "C16"]
 RLIMIT = 200
 TRUSTED = ["verus 0.2026.09.13 + z3", "A-isa: register / memory / flag write sets of the 45 mnemonics (MOS datasheet), written as spec functions in this unit",
            "A-vstd (String ==, clone, Option)"]
@@ -154,7 +154,7 @@ def build(repo):
     if rule_resets:
         jmp_clause = ""
     else:
-        jmp_clause = "        ((!remove_second && !remove_both) && ins(second).mnemonic == AsmMnemonic::JMP ==> r.0 is None && r.1 is None && r.2 is None), //@ C02:xfer-jump-forgets\n"
+        jmp_clause = "        ((!remove_second && !remove_both) && ins(second).mnemonic == AsmMnemonic::JMP ==> r.0 is None && r.1 is None && r.2 is None), //@ C02,C14:xfer-jump-forgets\n"
     b.sub(r"\biter\.peek\(\)", "iter.peek()", "R8 iter is the look-ahead shim")
     pair = """
 // R8: block A of optimize(), verbatim; free variables became parameters / results
